@@ -2486,7 +2486,9 @@ __make_evrdat(echs_event_t e, const echs_instant_t *d, size_t nd, bool exc)
 
 	if (nd == 1U) {
 		/* no need to sort things, just spread the one instant */
-		e.from = instant_soup(e.from, d[0U], z, eof);
+		e.from = instant_soup(
+			e.from, echs_instant_rescale(d[0U], SCALE_GREGORIAN),
+			z, eof);
 		e.from = echs_instant_rescale(e.from, cal);
 		res->ev[0U] = e;
 	} else {
@@ -2501,7 +2503,12 @@ __make_evrdat(echs_event_t e, const echs_instant_t *d, size_t nd, bool exc)
 		 * before the actual sorting because in rare cases timezone
 		 * changes can actually change the order */
 		for (size_t i = 0U; i < nd; i++) {
-			rd[i] = instant_soup(e.from, d[i], z, eof);
+			/* they may come in several scales, order and zone
+			 * arithmetic are about Gregorian instants */
+			rd[i] = instant_soup(
+				e.from,
+				echs_instant_rescale(d[i], SCALE_GREGORIAN),
+				z, eof);
 		}
 		/* now sort */
 		echs_instant_sort(rd, nd);
